@@ -22,6 +22,7 @@ type PropertyConfig struct {
 	Carriers []string `json:"carriers"` // "pkgpath.Key"
 	Sweep    []string `json:"sweep"`    // package paths swept for safety obligations without contracts
 	Kinds    []string `json:"kinds"`    // obligation kinds that count (empty: all)
+	Timeout  int      `json:"timeout"`  // per-solver timeout of the quick tier in seconds (default 10)
 	Facets   []string `json:"facets"`   // the carriers are verified once per facet, keeping the clauses tagged `only <id>.<facet>` of that facet
 	Trusted  []string `json:"trusted_base"`
 	Scenario string   `json:"scenario"`
@@ -123,6 +124,10 @@ func cmdVerify(args []string) int {
 		return 3
 	}
 	tmo := 10
+	if pc.Timeout > 0 {
+		// properties whose instantiation-heavy obligations need the raced second stage get more room
+		tmo = pc.Timeout
+	}
 	if *tier == "thorough" {
 		tmo = 60
 	}
